@@ -217,6 +217,15 @@ func run(args []string) error {
 			hist.Add("coinhours:" + cls)
 		}
 	}
+	// loops over slices (Gen/CoinLoops.v, Gen/FeeTxn.v): see loops.go
+	nl := n * 3 / 10
+	if nl > 2500 {
+		nl = 2500
+	}
+	if nl < 1 {
+		nl = 1
+	}
+	runLoops(r, nl, o, hist, caseJSON)
 	zze := "Z * Z * res (Z * error)"
 	o.Def("cases_add64", zze, add64)
 	o.Def("cases_mul64", zze, mul64)
@@ -228,7 +237,7 @@ func run(args []string) error {
 	o.Def("cases_remaining", "Z * Z * res Z", remaining)
 	o.Def("cases_vfee", "Z * Z * Z * res error", vfee)
 	o.Def("cases_coinhours", "Z * Z * Z * Z * res (Z * error)", ch)
-	o.Side["rule"] = "boundary-biased 64/32-bit operands (small, 2^k±1, near 2^32/2^63/2^64, sums and products straddling the width, multiples of the burn factor ±1, CoinHours points in each overflow region); a case is non-trivial when its inputs are in the function's domain (burn factor >= 1, t >= creation time); distinct by input tuple"
+	o.Side["rule"] = "boundary-biased 64/32-bit operands (small, 2^k±1, near 2^32/2^63/2^64, sums and products straddling the width, multiples of the burn factor ±1, CoinHours points in each overflow region; for the loop functions 0-6 inputs / outputs with realistic, legacy-overflow, intermediate-overflow and future outputs, output coins / hours aimed at the inputs' totals +-1 and at sums crossing 2^64); a case is non-trivial when its inputs are in the function's domain (burn factor >= 1, t >= creation time); distinct by input tuple"
 	o.Side["distribution"] = hist.Sorted()
 	o.Side["samples"] = samples
 	o.Side["cases"] = caseJSON
